@@ -99,20 +99,121 @@ def coq_bytes(bs):
     return "[" + "; ".join(str(b) for b in bs) + "]"
 
 
+def c_tokens(src):
+    """C source text as a token list (comments and white space dropped; string and character literals kept as
+    one token including their quotes); None when a literal or comment is not terminated."""
+    toks = []
+    i, n = 0, len(src)
+    word = re.compile(r"[A-Za-z_]\w*|\d\w*")
+    while i < n:
+        c = src[i]
+        if c.isspace():
+            i += 1
+        elif src.startswith("/*", i):
+            j = src.find("*/", i + 2)
+            if j < 0:
+                return None
+            i = j + 2
+        elif src.startswith("//", i):
+            j = src.find("\n", i)
+            i = n if j < 0 else j
+        elif c in "\"'":
+            j = i + 1
+            while j < n and src[j] != c:
+                if src[j] == "\n":
+                    return None
+                j += 2 if src[j] == "\\" else 1
+            if j >= n:
+                return None
+            toks.append(src[i:j + 1])
+            i = j + 1
+        else:
+            m = word.match(src, i)
+            if m:
+                toks.append(m.group())
+                i = m.end()
+            elif src[i:i + 2] in ("==", "!=", "++", "--", "&&", "||", "->", "<=", ">=", "+=", "-=", "|=", "&="):
+                toks.append(src[i:i + 2])
+                i += 2
+            else:
+                toks.append(c)
+                i += 1
+    return toks
+
+
+# lyxml_dump_text(): everything around the case groups must be exactly this (token-wise)
+XML_DUMP_HEAD = "{ LY_ERR ret; if (!text) { return 0; } for (uint64_t u = 0; text[u]; u++) { switch (text[u]) {"
+XML_DUMP_TAIL = "default: ret = ly_write_(out, &text[u], 1); break; } LY_CHECK_RET(ret); } return LY_SUCCESS; }"
+_STR = r'"((?:\\.|[^"\\])*)"'
+_CHR = r"'((?:\\.|[^'\\])+)'"
+_WRITE = r"ret = ly_write_ \( out , & text \[ u \] , 1 \) ;"
+# the block shapes of a case group (tokens joined by one blank)
+XML_BLK_ALWAYS = re.compile(r"^ret = ly_print_ \( out , %s \) ; break ;$" % _STR)
+XML_BLK_ATTR_FALL = re.compile(r"^if \( attribute \) \{ ret = ly_print_ \( out , %s \) ; break ; \}$" % _STR)
+XML_BLK_ATTR_ELSE = re.compile(r"^if \( attribute \) \{ ret = ly_print_ \( out , %s \) ; \} else \{ %s \} break ;$"
+                               % (_STR, _WRITE))
+XML_BLK_ATTR_SEL = re.compile(r"^if \( attribute \) \{ ret = ly_print_ \( out , \( text \[ u \] == %s \) \? %s : %s \) ; \} "
+                              r"else \{ %s \} break ;$" % (_CHR, _STR, _STR, _WRITE))
+
+
 def scrape_xml_escapes():
-    """(char, attribute_only, replacement) triples of lyxml_dump_text()'s switch."""
+    """(char, attribute_only, replacement) triples of lyxml_dump_text()'s switch, in source order.
+
+    Understood (anything else -> None, i.e. "scrape failed", never a guess): the function is a loop over the bytes of
+    text with one switch whose default writes the byte unchanged; a case group is one or more case labels followed by
+      (a) ret = ly_print_(out, "R"); break;                                                     -> (c, false, R)
+      (b) if (attribute) { ret = ly_print_(out, "R"); break; }   directly before default:       -> (c, true, R)
+      (c) if (attribute) { ret = ly_print_(out, "R"); } else { <write byte> } break;            -> (c, true, R)
+      (d) two labels X, Y:
+          if (attribute) { ret = ly_print_(out, (text[u] == 'X') ? "RX" : "RY"); } else { <write byte> } break;
+                                                                                -> (X, true, RX), (Y, true, RY)
+    ly_print_ is printf-like: a replacement containing '%' is refused; a byte with two case labels is refused."""
     body = func_body(os.path.join(vlib.REPO, "src", "xml.c"), "lyxml_dump_text")
-    out = []
     if not body:
         return None
-    for m in re.finditer(r"case\s+'((?:\\.|[^'\\])+)'\s*:(.*?)(?=case\s+'|default\s*:)", body, flags=re.S):
-        ch = c_char(m.group(1))
-        blk = m.group(2)
-        pm = re.search(r'ly_print_\(\s*out\s*,\s*"((?:\\.|[^"\\])*)"\s*\)', blk)
-        if not pm:
+    toks = c_tokens(body)
+    head, tail = c_tokens(XML_DUMP_HEAD), c_tokens(XML_DUMP_TAIL)
+    if toks is None or len(toks) < len(head) + len(tail) or toks[:len(head)] != head or toks[-len(tail):] != tail:
+        return None
+    toks = toks[len(head):len(toks) - len(tail)]
+    out = []
+    i = 0
+    try:
+        while i < len(toks):
+            labels = []
+            while i < len(toks) and toks[i] == "case":
+                if not re.fullmatch(_CHR, toks[i + 1]) or toks[i + 2] != ":":
+                    return None
+                labels.append(c_char(toks[i + 1][1:-1]))
+                i += 3
+            j = i
+            while j < len(toks) and toks[j] not in ("case", "default"):
+                j += 1
+            if not labels or j == i or (j < len(toks) and toks[j] == "default"):
+                return None
+            blk = " ".join(toks[i:j])
+            last = j == len(toks)
+            i = j
+            m = XML_BLK_ALWAYS.match(blk)
+            if m:
+                out += [(c, False, c_string(m.group(1))) for c in labels]
+                continue
+            m = XML_BLK_ATTR_ELSE.match(blk) or (XML_BLK_ATTR_FALL.match(blk) if last else None)
+            if m:
+                out += [(c, True, c_string(m.group(1))) for c in labels]
+                continue
+            m = XML_BLK_ATTR_SEL.match(blk)
+            if m and len(labels) == 2 and c_char(m.group(1)) in labels and labels[0] != labels[1]:
+                x = c_char(m.group(1))
+                sel = {x: c_string(m.group(2))}
+                sel[[c for c in labels if c != x][0]] = c_string(m.group(3))
+                out += [(c, True, sel[c]) for c in labels]
+                continue
             return None
-        attr_only = bool(re.search(r"if\s*\(\s*attribute\s*\)", blk))
-        out.append((ch, attr_only, c_string(pm.group(1))))
+    except (IndexError, KeyError, ValueError):
+        return None
+    if len({c for c, _, _ in out}) != len(out) or any(37 in r or not r for _, _, r in out) or any(c == 0 for c, _, _ in out):
+        return None
     return out
 
 
